@@ -1,14 +1,17 @@
-import Cppcms.C03.ConnWriteLemmas
-import Cppcms.C03.FramingLemmas
-import Cppcms.C03.DeviceLemmas
-import Cppcms.C03.ChainLemmas
+import Cppcms.C03.FinalLemmas
+import Cppcms.C03.CacheLemmas
+import Cppcms.C03.HeadersLemmas
 /-!
 # C03 — the client receives exactly the bytes the application wrote, once and in order
 
-Property theorems only; helper lemmas are in `ConnWriteLemmas.lean`, `FramingLemmas.lean`.
+Property theorems only; helper lemmas are in the `*Lemmas.lean` files.  Sections 1–4 are the layer
+theorems (connection write path, framing, stream buffers, framing of a whole response), section 5 the
+`response_headers` container, section 6 the composition over the model the correspondence runs
+(`runCase`): response object → trace → connection → wire, and the page cache.
 -/
 namespace Cppcms.C03.Props
 open Cppcms Cppcms.C03
+
 
 /-! ## 1. connection write path: every schedule of partial socket writes -/
 
@@ -122,53 +125,55 @@ example (data : Bytes) (h : data.length = 70000) :
 
 /-! ## 3. the stream-buffer chain -/
 
+/-! ## 3. the stream-buffer chain -/
+
 /-- **device_conservation.**  For either device (`output_device`, `async_io_buf` with full or
 partial buffering), in every io mode (`raw` = the raw modes, where the device first takes the
 application's own CGI header block out of the stream), any initial buffer size and every sequence of
 `sputn` / `sputc` / `pubsync` / `flush_async_chunk` / `setbuf m` / `full_asynchronous_buffering b`
-(over a connection that accepts its writes): after `close()` nothing is buffered, the bytes passed to
-`connection::write` are exactly the bytes written by the layer above (`filterOf raw` = identity outside
-the raw modes), no eof was announced before, and eof is announced exactly once — with the last write.
-The `flush_async_chunk` that `async_write_response` adds after `finalize()` sends no byte and no second eof. -/
-theorem device_conservation (isAsync full raw : Bool) (n : Nat) (ops : List DevOp) :
+(over a connection that accepts its writes): before `close()` no eof was announced; after `close()` nothing
+is buffered, the bytes passed to `connection::write` are exactly the bytes written by the layer above
+(`filterOf raw` = identity outside the raw modes), and eof is announced exactly once — with the last write.
+And **whatever** is done to the device afterwards (`post`: any number of `flush_async_chunk`, `pubsync`,
+`setbuf`, buffering-mode changes, in any order — `async_write_response` after an explicit `finalize()`, an
+application that keeps calling `async_flush_output`) sends no further byte and announces eof no second time. -/
+theorem device_conservation (isAsync full raw : Bool) (n : Nat) (ops post : List DevOp) (hpost : ∀ op ∈ post, op.data = []) :
     let r := Dev.run (Dev.fresh isAsync full raw n, []) ops
-    let c := r.1.close logIf r.2
-    let f := c.1.flush logIf c.2
-    Log.eofs r.2 = 0 ∧
-    Log.bytes c.2 = filterOf raw (ops.map DevOp.data).flatten ∧ c.1.content = [] ∧ Log.eofs c.2 = 1 ∧
-    (c.2.getLast?.map (fun (x : Bytes × Bool) => x.2)) = some true ∧
-    Log.bytes f.2.1 = filterOf raw (ops.map DevOp.data).flatten ∧ Log.eofs f.2.1 = 1 := by
-  intro r c f
-  have ⟨hi0, hq0, hm0⟩ := Dev.fresh_inv isAsync full raw n
-  have ⟨hi, hq⟩ := Dev.run_inv ops _ [] [] hi0 hq0
-  have hm := Dev.run_rawMode ops _ [] [] hi0
-  simp only [List.nil_append] at hi
-  have ⟨c1, c2, c3, c4, c5, c6, c7⟩ := Dev.close_spec r.1 r.2 _ hi hq
-  have ⟨f1, f2⟩ := Dev.flush_after_close c.1 c.2 _ c5 c6 c7
-  have hmc : c.1.rawMode = raw := by
-    have := (Dev.flush_inv { r.1 with final := true } r.2 _ hi).2.2.2.2.2.2.2.2.2.2.2
-    have hcl : c.1 = ({ r.1 with final := true }.flush logIf r.2).1 := by
-      show (r.1.close logIf r.2).1 = _
-      unfold Dev.close
-      rw [if_neg (by rw [hq.2.1]; exact Bool.false_ne_true)]
-    rw [hcl, this]
-    show r.1.rawMode = raw
-    rw [hm, hm0]
-  rw [hm, hm0] at c1
-  rw [hmc] at f1
-  exact ⟨hq.2.2, c1, c2, c3, c4, f1, by rw [f2, c3]⟩
+    let c := r.1.close traceIf r.2
+    let p := Dev.run (c.1, c.2) post
+    r.2.eofs = 0 ∧
+    c.2.bytes = filterOf raw (ops.map DevOp.data).flatten ∧ c.1.content = [] ∧ c.2.eofs = 1 ∧
+    (c.2.sends.getLast?.map (fun (x : Bytes × Bool) => x.2)) = some true ∧
+    p.2.bytes = filterOf raw (ops.map DevOp.data).flatten ∧ p.2.eofs = 1 := by
+  intro r c p
+  have ⟨hi0, hq0, hm0⟩ := Dev.fresh_inv isAsync full raw n [] rfl
+  have hr0 : RawOk (Dev.fresh isAsync full raw n) [] := by
+    intro _
+    exact ⟨fun _ => ⟨rfl, rfl⟩, fun hd => by have : (Dev.fresh isAsync full raw n).raw.done = false := rfl; rw [this] at hd; cases hd⟩
+  have ⟨g, hm, _, _⟩ := Dev.run_good ops _ [] [] ⟨hi0, hq0, hr0⟩
+  simp only [List.nil_append] at g
+  have ⟨c1, c2, c3, c4, c5, c6, _, c8, _, _⟩ := Dev.close_spec r.1 r.2 _ g
+  have hmr : r.1.rawMode = raw := hm.trans hm0
+  rw [hmr] at c1 c8
+  have ⟨_, _, p3, p4, _⟩ := Dev.run_sealed post c.1 c.2 _ c5 c6 (by rw [c8]; exact c1) hpost
+  rw [c8] at p4
+  refine ⟨g.quiet.2.2, c1, c2, c3, ?_, p4, p3.trans c3⟩
+  show (List.getLast? (Trace.sends (r.1.close traceIf r.2).2)).map _ = _
+  rw [c4]; simp
 
 /-- written ++ buffered = input at every moment (outside the raw modes) -/
 theorem device_conservation_running (isAsync full : Bool) (n : Nat) (ops : List DevOp) :
     let r := Dev.run (Dev.fresh isAsync full false n, []) ops
-    Log.bytes r.2 ++ r.1.content = (ops.map DevOp.data).flatten := by
+    r.2.bytes ++ r.1.content = (ops.map DevOp.data).flatten := by
   intro r
-  have ⟨hi0, hq0, hm0⟩ := Dev.fresh_inv isAsync full false n
-  have ⟨hi, _⟩ := Dev.run_inv ops _ [] [] hi0 hq0
-  have hm := Dev.run_rawMode ops _ [] [] hi0
-  simp only [List.nil_append] at hi
-  obtain ⟨fed, _, _, h3, h4, _⟩ := hi
-  rw [hm, hm0] at h4
+  have ⟨hi0, hq0, hm0⟩ := Dev.fresh_inv isAsync full false n [] rfl
+  have hr0 : RawOk (Dev.fresh isAsync full false n) [] := by
+    intro h; rw [hm0] at h; cases h
+  have ⟨g, hm, _, _⟩ := Dev.run_good ops _ [] [] ⟨hi0, hq0, hr0⟩
+  simp only [List.nil_append] at g
+  obtain ⟨fed, _, _, h3, h4, _⟩ := g.inv
+  have hmr : r.1.rawMode = false := hm.trans hm0
+  rw [hmr] at h4
   simp only [filterOf, Bool.false_eq_true, if_false] at h4
   unfold Dev.content
   rw [h4]; exact h3
@@ -184,26 +189,19 @@ theorem raw_header_block_stripped (ls : List Bytes) (hok : ∀ l ∈ ls, l ≠ [
   exact ⟨this.1, this.2.2⟩
 
 /-- non-vacuity / illustration: unbuffered device, a write larger than the buffer, a put, a setbuf that forces a flush -/
-example : (Dev.run (Dev.fresh false true false 2, []) [.put [1,2,3], .putc 4, .putc 5, .setbuf 1, .put [6]]).2 = [([1,2,3], false), ([4,5], false)]
+example : (Dev.run (Dev.fresh false true false 2, []) [.put [1,2,3], .putc 4, .putc 5, .setbuf 1, .put [6]]).2.sends = [([1,2,3], false), ([4,5], false)]
     ∧ (Dev.run (Dev.fresh false true false 2, []) [.put [1,2,3], .putc 4, .putc 5, .setbuf 1, .put [6]]).1.content = [6] := by
   decide
 
 /-- raw mode illustration: `A: b CRLF CRLF xy` written in two pieces that cut the header block -/
-example : Log.bytes ((Dev.run (Dev.fresh false true true 0, []) [.put [65, 58, 32, 98, 13], .put [10, 13, 10, 120, 121]]).1.close logIf
-    (Dev.run (Dev.fresh false true true 0, []) [.put [65, 58, 32, 98, 13], .put [10, 13, 10, 120, 121]]).2).2 = [120, 121] := by
+example : ((Dev.run (Dev.fresh false true true 0, []) [.put [65, 58, 32, 98, 13], .put [10, 13, 10, 120, 121]]).1.close traceIf
+    (Dev.run (Dev.fresh false true true 0, []) [.put [65, 58, 32, 98, 13], .put [10, 13, 10, 120, 121]]).2).2.bytes = [120, 121] := by
   decide
 
-/-- the eof bookkeeping of `basic_device::write` (`eof_send_ = send_eof`) toggles: a third flush after
-`close(); flush()` would announce eof again.  `http::context` never does that (one `finalize`, at most one
-`flush_async_chunk` after it), which is what `device_conservation` covers; an application calling
-`response().finalize()` itself and then `async_flush_output` does reach it (reproduced on the real code,
-see design.d/C03.md). -/
-theorem eof_flag_toggles_counterexample :
-    let d0 := Dev.fresh true true false 4
-    let c := d0.close logIf []
-    let f1 := c.1.flush logIf c.2
-    let f2 := f1.1.flush logIf f1.2.1
-    Log.eofs f2.2.1 = 2 := by decide
+/-- the scenario that used to announce eof twice (`eof_send_ = send_eof` toggled; fixed in /repo, 6aa2ae1):
+`close()` then three flushes — one eof -/
+example : (Dev.run ((Dev.fresh true true false 4).close traceIf []) [.flush, .flush, .flush]).2.eofs = 1 := by decide
+
 
 /-- **cache_copy_identical.**  For every sequence of writes/puts/flushes through `copy_buf` followed by
 `close()`: the bytes it handed to the next buffer (what goes towards the client) and the bytes
@@ -359,55 +357,294 @@ example : HeadOk [67,111,110,116,101,110,116,45,84,121,112,101,58,32,116,101,120
 
 /-! ## 5. composition -/
 
-/-- **client_sees_app_bytes.**  Put together for any of the protocols (`F` is `httpFraming`,
-`fcgiFraming` or `scgiFraming`, which carry their round-trip theorems): for either device, any buffer
-size, every sequence of device operations followed by `close()`, and **every** disciplined trace of
-connection events that was handed the formatted outputs and ended drained without a hard error — whatever
-prefixes the socket accepted and however often it reported would-block — the bytes on the wire decode, with
-the independent de-framer, to exactly one head and a body equal to the bytes written to the device
-(`filterOf raw`: in the raw modes, the bytes after the application's own header block). -/
-theorem client_sees_app_bytes (F : Framing) (isAsync full raw : Bool) (n : Nat) (ops : List DevOp)
-    (hlen : F.lengthOk (filterOf raw (ops.map DevOp.data).flatten).length)
-    (evs : List Ev) (hd : disciplined {} evs = true) (hb : (runEvs {} evs).broken = false) (hdr : (runEvs {} evs).backlog = [])
-    (hh : (evs.map Ev.data).flatten =
-      (F.run ((Dev.run (Dev.fresh isAsync full raw n, []) ops).1.close logIf (Dev.run (Dev.fresh isAsync full raw n, []) ops).2).2).1) :
-    ∃ head, F.deframe (runEvs {} evs).wire = some (head, filterOf raw (ops.map DevOp.data).flatten) :=
-  chain_device F isAsync full raw n ops hlen evs hd hb hdr hh
+/-! ## 5. the header container (`response_headers`) -/
 
-/-- **client_sees_app_bytes, compressed and cached page.**  The full chain application → `gzip_buf` →
-`copy_buf` → device → framing → connection, for any deflater with an `inflate` that inverts it on
-finished streams: the client's body decompresses to exactly the application's bytes, and the page copied
-for the cache is byte-identical to the body that was sent. -/
-theorem client_sees_app_bytes_gzip_cached (F : Framing) (D : Deflater) (gzBuf : Int) (isAsync full : Bool) (n : Nat)
-    (appOps : List BufOp) (inflate : Bytes → Option Bytes)
-    (hinf : ∀ cs l, (∀ x ∈ cs, x.2 ≠ Flush.finish) →
-        inflate (feedAll D D.init (cs ++ [(l, Flush.finish)])).2 = some ((cs ++ [(l, Flush.finish)]).map (·.1)).flatten) :
-    let g := Gz.run (Gz.open D gzBuf, []) appOps
-    let acts1 := g.2 ++ g.1.close.2
-    let k := Copy.run ({}, []) (acts1.map Act.toBufOp)
-    let acts2 := k.2 ++ k.1.close.2
-    let d := Dev.run (Dev.fresh isAsync full false n, []) (acts2.map Act.toDevOp)
-    F.lengthOk (actBytes acts1).length →
-    ∀ evs, disciplined {} evs = true → (runEvs {} evs).broken = false → (runEvs {} evs).backlog = [] →
-      (evs.map Ev.data).flatten = (F.run (d.1.close logIf d.2).2).1 →
-      ∃ head body, F.deframe (runEvs {} evs).wire = some (head, body) ∧
-        inflate body = some (appOps.map BufOp.data).flatten ∧ k.1.close.1.getstr.1 = body :=
-  chain_gzip_cached F D gzBuf isAsync full n appOps inflate hinf
+/-- header names are compared without regard to ASCII case — `ieq` is the equivalence of
+`protocol::compare` (the ordering of the `headers_` map) -/
+theorem header_names_case_insensitive (l r : Bytes) : ieq l r = true ↔ l.map lowerByte = r.map lowerByte :=
+  ieq_iff l r
 
-/-- non-vacuity of the `inflate` hypothesis: the storing deflater is inverted by the identity -/
-example : ∀ cs l, (∀ x ∈ cs, x.2 ≠ Flush.finish) →
-    (fun x => some x) (feedAll idDeflater idDeflater.init (cs ++ [(l, Flush.finish)])).2 = some ((cs ++ [(l, Flush.finish)]).map (·.1)).flatten := by
-  intro cs l _
-  have key : ∀ (xs : List (Bytes × Flush)) (s : idDeflater.σ), (feedAll idDeflater s xs).2 = (xs.map (·.1)).flatten := by
-    intro xs
-    induction xs with
-    | nil => intro s; rfl
-    | cons x xs ih =>
-      intro s
-      obtain ⟨i, f⟩ := x
-      show i ++ (feedAll idDeflater _ xs).2 = i ++ (xs.map (·.1)).flatten
-      rw [ih]
-  show some _ = some _
-  rw [key]
+/-- **last set wins, under any spelling.**  After any sequence of `set_header` (and the typed setters
+built on it), `add_header` and `set_cookie` calls on an empty container, `get_header(n)` returns the value of
+the last assignment to a name equal to `n` up to case (`add_header` assigns only for `Status` and
+`Content-Length`), or nothing if there was none / the last one was empty (which erases). -/
+theorem headers_last_set_wins (ops : List HOp) (n : Bytes) :
+    (ops.foldl Headers.apply {}).get n = lastValue n [] ops :=
+  (Headers.run_spec ops {} Headers.ok_empty).2.1 n
+
+/-- **one entry per name**: the map never holds two entries whose names differ only in case, so
+at most one `Name: value` line per name is written -/
+theorem headers_unique_names (ops : List HOp) (n : Bytes) :
+    ((ops.foldl Headers.apply {}).map.filter fun e => ieq e.1 n).length ≤ 1 :=
+  Sorted.unique _ (Headers.run_spec ops {} Headers.ok_empty).1 n
+
+/-- **added headers and cookies are kept, all of them, in the order they were added** -/
+theorem headers_added_in_order (ops : List HOp) :
+    (ops.foldl Headers.apply {}).added = ops.filterMap HOp.adds := by
+  have := (Headers.run_spec ops {} Headers.ok_empty).2.2
+  simpa using this
+
+/-- the lines of the header block: one per map entry, then the added ones -/
+theorem header_lines_shape (H : Headers) :
+    H.lines none = H.map.map (fun kv => kv.1 ++ [58, 32] ++ kv.2) ++ H.added := by
+  unfold Headers.lines
+  congr 1
+  induction H.map with
+  | nil => rfl
+  | cons kv m ih => simp only [List.flatMap_cons, List.map_cons, ih]; rfl
+
+/-- non-vacuity / illustration: `Content-Type` set twice in different case, a cookie, `add_header("Status")` -/
+example : ((([HOp.set [67,111,110,116,101,110,116,45,84,121,112,101] [97], HOp.addRaw [99,61,49],
+              HOp.set [99,79,78,84,69,78,84,45,116,121,112,101] [98], HOp.add (b Gen.statusName) [52,48,52]] : List HOp).foldl Headers.apply {}).lines none)
+    = [[67,111,110,116,101,110,116,45,84,121,112,101,58,32,98], [83,116,97,116,117,115,58,32,52,48,52], [99,61,49]] := by
+  decide
+
+/-! ## 6. composition: the response as a whole
+
+`runCaseWith D cfg cache cs` is the model the correspondence runs against the real framework, byte for
+byte (`Model.lean`): the script `cs.script` drives the response object (`Response.lean`: `out()` with its
+gzip decision and header hand-over, `gzip_buf → copy_buf → device`, `finalize`, the context's completion,
+`fetch_page`/`store_page`), whose trace is replayed on the connection (`WireModel.lean`: `format_output` of
+`cs.proto`, the write path under the socket schedule `cs.sched`).  `wellFormed` is the usage contract: no
+write (and no synchronous flush, no `fetch_page`) after `finalize()`/`store_page()`. -/
+
+/-- non-vacuity of the usage contract; an explicit `finalize()` followed by asynchronous flushes is inside it -/
+example : wellFormed .async [.setbuf 0, .write 5 1, .flush, .write 3 2, .finalize, .flush, .flush] = true ∧
+          wellFormed .normal [.fetchPage "k", .write 5 1, .flush, .storePage "k"] = true ∧
+          wellFormed .normal [.finalize, .write 1 1] = false := by decide
+
+/-- **stage 1: the response object.**  For every script within the usage contract, io mode, buffer / gzip
+configuration, cache content and request: when the context has completed the response it is `Done` — every
+byte written went through the chain; `Z`, what left `gzip_buf` (or the bytes written), is what `copy_buf` kept and
+— minus the application's own header block in the raw modes — what the connection was given as a sequence of
+calls `…(wᵢ, false)…, (last, true), ([], false)*`: eof announced exactly once, with the last data, empty calls
+afterwards only; the header set is handed over exactly once, before the first byte. -/
+theorem response_trace (D : Deflater) (cfg : Config) (cache : PageCache) (mode : Mode) (acceptGzip : Bool) (script : List Op)
+    (hwf : wellFormed mode script = true) :
+    ∃ Z, Done (runScript D cfg cache mode acceptGzip script).resp (runScript D cfg cache mode acceptGzip script).resp.written Z ∧
+      (runScript D cfg cache mode acceptGzip script).resp.mode = mode :=
+  response_trace_spec cfg cache mode acceptGzip script hwf
+
+/-- **body = what the application wrote, or a gzip stream of it.**  In a `Done` response without `gzip_buf`,
+what left the chain is what was written; with `gzip_buf`, it is the output of the deflater fed exactly the bytes
+written, `Z_FINISH` exactly once and last — so any `inflate` that inverts the deflater on finished streams
+recovers the application's bytes. -/
+theorem body_is_written_or_gzip_of_it {D : Deflater} {r : Resp D} {W Z : Bytes} (d : Done r W Z) :
+    (r.gz = none → Z = W) ∧
+    (r.gz.isSome = true → ∀ inflate : Bytes → Option Bytes,
+      (∀ cs l, (∀ x ∈ cs, x.2 ≠ Flush.finish) →
+          inflate (feedAll D D.init (cs ++ [(l, Flush.finish)])).2 = some ((cs ++ [(l, Flush.finish)]).map (·.1)).flatten) →
+      inflate Z = some W) := by
+  have hg := d.gz
+  unfold GzDone at hg
+  refine ⟨fun h => by rw [h] at hg; exact hg, fun h inflate hinf => ?_⟩
+  obtain ⟨g, hgs⟩ := Option.isSome_iff_exists.mp h
+  rw [hgs] at hg
+  obtain ⟨_, calls, last, h1, h2, h3, h4⟩ := hg
+  rw [← h4, h1, hinf calls last h2, ← h1, h3]
+
+/-- **the gzip decision and the headers agree**, for every script (no usage contract needed): a `gzip_buf` exists
+exactly if `need_gzip()` held for the application's headers when `out()` ran, and then — only then — `out()` added
+`Content-Encoding: gzip` before handing the headers over; see `Enc`. -/
+theorem gzip_decision_matches_headers (D : Deflater) (cfg : Config) (cache : PageCache) (mode : Mode) (acceptGzip : Bool)
+    (script : List Op) : Enc (runScript D cfg cache mode acceptGzip script).resp :=
+  encoding_decision cfg cache mode acceptGzip script
+
+/-- **response_wire_eq (SCGI/CGI).**  For every write script within the usage contract, io mode, buffer and gzip
+configuration, cache content, request and socket schedule: nothing is violated, given up, broken or left
+pending, and the bytes on the wire are the header block `format_xcgi_response_headers` makes of the header set
+`out()` handed over (in the raw modes: parsed from the application's own block, which must be complete), followed
+by exactly the bytes that left the buffer chain. -/
+theorem response_wire_eq_scgi (D : Deflater) (cfg : Config) (cache : PageCache) (cs : Case)
+    (hwf : wellFormed cs.mode cs.script = true) (hp : cs.proto = .scgi) :
+    ∃ Z, Done (runCaseWith D cfg cache cs).run.resp (runCaseWith D cfg cache cs).run.resp.written Z ∧
+      ((cs.mode.isRaw = true → (rawNext {} (runCaseWith D cfg cache cs).run.resp.written).done = true) →
+        WireOk (runCaseWith D cfg cache cs).wire ∧
+        (runCaseWith D cfg cache cs).wire.conn.wire =
+          xcgiHeaders false (runCaseWith D cfg cache cs).run.resp.wireHeaders ++ filterOf cs.mode.isRaw Z) :=
+  Cppcms.C03.response_wire_eq_scgi cfg cache cs hwf hp
+
+/-- **response_wire_eq (FastCGI).**  As above; the wire is a well-formed record sequence for request 1 (see
+`fcgi_records_wellformed`) whose STDOUT stream is the header block followed by the bytes that left the chain. -/
+theorem response_wire_eq_fcgi (D : Deflater) (cfg : Config) (cache : PageCache) (cs : Case)
+    (hwf : wellFormed cs.mode cs.script = true) (hp : cs.proto = .fcgi) :
+    ∃ Z, Done (runCaseWith D cfg cache cs).run.resp (runCaseWith D cfg cache cs).run.resp.written Z ∧
+      ((cs.mode.isRaw = true → (rawNext {} (runCaseWith D cfg cache cs).run.resp.written).done = true) →
+        WireOk (runCaseWith D cfg cache cs).wire ∧
+        ∃ ds, ds.flatten = xcgiHeaders false (runCaseWith D cfg cache cs).run.resp.wireHeaders ++ filterOf cs.mode.isRaw Z ∧
+          (runCaseWith D cfg cache cs).wire.conn.wire = fcgiWire 1 ds ∧
+          Spec.deRecords (runCaseWith D cfg cache cs).wire.conn.wire = some (fcgiAllRecs 1 ds) ∧
+          Spec.fcgiStdoutStream 1 (fcgiAllRecs 1 ds) = some ds.flatten) :=
+  Cppcms.C03.response_wire_eq_fcgi cfg cache cs hwf hp
+
+/-- **response_wire_eq (HTTP).**  As above, for an HTTP/1.0 or 1.1 request with or without keep-alive.  Hypotheses
+about the application's headers (`HttpReady`, derivable from `HttpHeadersOk` by `httpReady_of_headers`: no CR in
+status / header lines, no Transfer-Encoding of its own, at most one Content-Length, in plain decimal) and, if it
+announced a Content-Length, that the body has that length.  Then the wire is exactly one head — the application's
+status line and headers, then the lines `format_output` adds — followed by the body in the framing chosen
+(Content-Length, chunked, until-close), and an RFC 7230 client decodes it to the bytes that left the chain. -/
+theorem response_wire_eq_http (D : Deflater) (cfg : Config) (cache : PageCache) (cs : Case)
+    (hwf : wellFormed cs.mode cs.script = true) (a c : Bool) (hp : cs.proto = .http a c) (l0 : Bytes) (rest0 : List Bytes)
+    (hready : HttpReady (({ isHttp11 := a, clientKeepAlive := c } : HttpSt).setHeaders (runCaseWith D cfg cache cs).run.resp.wireHeaders) l0 rest0) :
+    ∃ Z, Done (runCaseWith D cfg cache cs).run.resp (runCaseWith D cfg cache cs).run.resp.written Z ∧
+      ((cs.mode.isRaw = true → (rawNext {} (runCaseWith D cfg cache cs).run.resp.written).done = true) →
+       (∀ n, (({ isHttp11 := a, clientKeepAlive := c } : HttpSt).setHeaders (runCaseWith D cfg cache cs).run.resp.wireHeaders).contentLength = some n →
+          (filterOf cs.mode.isRaw Z).length = n) →
+        WireOk (runCaseWith D cfg cache cs).wire ∧
+        ∃ extras enc,
+          (runCaseWith D cfg cache cs).wire.conn.wire = joinLines (l0 :: (rest0 ++ extras)) ++ [13, 10] ++ enc ∧
+          Spec.deHttp (runCaseWith D cfg cache cs).wire.conn.wire =
+            some (joinLines (l0 :: (rest0 ++ extras)) ++ [13, 10], filterOf cs.mode.isRaw Z)) :=
+  Cppcms.C03.response_wire_eq_http cfg cache cs hwf a c hp l0 rest0 hready
+
+/-- the header hypothesis of `response_wire_eq_http`, from conditions on the header set alone -/
+theorem http_ready_of_clean_headers (a c : Bool) (H : Headers) (ok : HttpHeadersOk H) :
+    HttpReady (({ isHttp11 := a, clientKeepAlive := c } : HttpSt).setHeaders H) (httpStatusLine a H)
+      (H.lines (some (b Gen.statusName))) :=
+  httpReady_of_headers a c H ok
+
+/-- **client_sees_app_bytes.**  The same for any presentation `F` of the protocol with a round-trip theorem against
+the independent de-framer (`httpFraming`, `fcgiFraming`, `scgiFraming`): the client decodes exactly one head and
+exactly the bytes that left the buffer chain. -/
+theorem client_sees_app_bytes (D : Deflater) (cfg : Config) (cache : PageCache) (cs : Case)
+    (hwf : wellFormed cs.mode cs.script = true) :
+    ∃ Z, Done (runCaseWith D cfg cache cs).run.resp (runCaseWith D cfg cache cs).run.resp.written Z ∧
+      (runCaseWith D cfg cache cs).run.resp.mode = cs.mode ∧
+      ∀ (F : Framing),
+        (∀ calls, F.run calls = ((cs.framer (runCaseWith D cfg cache cs).run.resp.wireHeaders).run calls).2) →
+        (cs.mode.isRaw = true → (rawNext {} (runCaseWith D cfg cache cs).run.resp.written).done = true) →
+        F.lengthOk (filterOf cs.mode.isRaw Z).length →
+        (runCaseWith D cfg cache cs).wire.violated = false ∧ (runCaseWith D cfg cache cs).wire.gaveUp = false ∧
+        (runCaseWith D cfg cache cs).wire.conn.broken = false ∧ (runCaseWith D cfg cache cs).wire.conn.backlog = [] ∧
+        ∃ ws last head, ws.flatten ++ last = filterOf cs.mode.isRaw Z ∧
+          (runCaseWith D cfg cache cs).wire.conn.wire = (F.run (callsOf ws last)).1 ∧
+          F.deframe (runCaseWith D cfg cache cs).wire.conn.wire = some (head, filterOf cs.mode.isRaw Z) :=
+  response_wire_generic cfg cache cs hwf
+
+/-- what left the chain is determined by the response: the `Z` of the theorems above is the same `Z` -/
+theorem done_body_unique {D : Deflater} {r : Resp D} {W W' Z Z' : Bytes} (d : Done r W Z) (d' : Done r W' Z') :
+    filterOf r.mode.isRaw Z = filterOf r.mode.isRaw Z' := by
+  rw [← d.bytesAll, ← d'.bytesAll]
+
+/-! ### the page cache -/
+
+/-- **store_page stores what was sent** (one step; see `Run.storePage_stores`) -/
+theorem store_page_stores_sent_bytes {D : Deflater} (x : Run D) (key : String) (p : Phase x.resp) (e : Enc x.resp) (a : Armed x.resp)
+    (hnf : x.resp.finalized = false) :
+    ∃ Z, Done (x.storePage key).resp (x.storePage key).resp.written Z ∧
+      (x.storePage key).resp.gz.isSome = x.resp.finalize.gz.isSome ∧
+      (x.storePage key).cache.fetch (pageKey (x.storePage key).resp.gz.isSome key) = some Z ∧
+      (x.storePage key).cacheCopy = some Z :=
+  x.storePage_stores key p e a hnf
+
+/-- **a miss is recorded and stored as sent** (whole scripts; see `Cppcms.C03.cache_miss_stores_sent_bytes`) -/
+theorem cache_miss_stores_sent_bytes (D : Deflater) (cfg : Config) (cache : PageCache) (mode : Mode) (acceptGzip : Bool)
+    (pre mid post : List Op) (key : String) (hpre : ∀ op ∈ pre, op.isPrelude = true)
+    (hmiss : cache.fetch (pageKey (pre.foldl Run.step ({ resp := Resp.new D cfg mode acceptGzip, cache } : Run D)).resp.needGzip key) = none)
+    (hmid : ∀ op ∈ mid, op.keepsEncoding = true ∧ op.finalizes = false)
+    (hpost : ∀ op ∈ post, op.afterFinalOk mode = true ∧ op.isStore = false) :
+    ∃ Z, Done (runScript D cfg cache mode acceptGzip (pre ++ .fetchPage key :: (mid ++ .storePage key :: post))).resp
+           (runScript D cfg cache mode acceptGzip (pre ++ .fetchPage key :: (mid ++ .storePage key :: post))).resp.written Z ∧
+      (runScript D cfg cache mode acceptGzip (pre ++ .fetchPage key :: (mid ++ .storePage key :: post))).cache.fetch
+        (pageKey (runScript D cfg cache mode acceptGzip (pre ++ .fetchPage key :: (mid ++ .storePage key :: post))).resp.gz.isSome key) = some Z ∧
+      (runScript D cfg cache mode acceptGzip (pre ++ .fetchPage key :: (mid ++ .storePage key :: post))).cacheCopy = some Z :=
+  Cppcms.C03.cache_miss_stores_sent_bytes cfg cache mode acceptGzip pre mid post key hpre hmiss hmid hpost
+
+/-- **cached_hit_serves_stored_bytes_once** (see `Cppcms.C03.cached_hit_serves_stored_bytes_once`) -/
+theorem cached_hit_serves_stored_bytes_once (D : Deflater) (cfg : Config) (cache : PageCache) (mode : Mode) (acceptGzip : Bool)
+    (pre rest : List Op) (key : String) (page : Bytes) (hpre : ∀ op ∈ pre, op.isPrelude = true)
+    (hit : cache.fetch (pageKey (pre.foldl Run.step ({ resp := Resp.new D cfg mode acceptGzip, cache } : Run D)).resp.needGzip key) = some page) :
+    Done (runScript D cfg cache mode acceptGzip (pre ++ .fetchPage key :: rest)).resp page page ∧
+    (runScript D cfg cache mode acceptGzip (pre ++ .fetchPage key :: rest)).resp.written = page ∧
+    (runScript D cfg cache mode acceptGzip (pre ++ .fetchPage key :: rest)).resp.gz = none ∧
+    (runScript D cfg cache mode acceptGzip (pre ++ .fetchPage key :: rest)).resp.copy = none ∧
+    (runScript D cfg cache mode acceptGzip (pre ++ .fetchPage key :: rest)).resp.mode = mode ∧
+    (runScript D cfg cache mode acceptGzip (pre ++ .fetchPage key :: rest)).cache = cache ∧
+    (mode.isRaw = false → (runScript D cfg cache mode acceptGzip (pre ++ .fetchPage key :: rest)).resp.sentHeaders =
+      some (if (pre.foldl Run.step ({ resp := Resp.new D cfg mode acceptGzip, cache } : Run D)).resp.needGzip
+        then (pre.foldl Run.step ({ resp := Resp.new D cfg mode acceptGzip, cache } : Run D)).resp.headers.set sContentEncoding sGzip
+        else (pre.foldl Run.step ({ resp := Resp.new D cfg mode acceptGzip, cache } : Run D)).resp.headers)) :=
+  Cppcms.C03.cached_hit_serves_stored_bytes_once cfg cache mode acceptGzip pre rest key page hpre hit
+
+/-- **cache round trip.**  Request A misses, writes, stores; any later request B whose `need_gzip()` selects the
+variant A stored gets — as its whole body, uncompressed a second time by nobody — exactly the bytes `Z` that A's
+client was sent. -/
+theorem cache_roundtrip (D : Deflater) (cfgA cfgB : Config) (cache : PageCache) (modeA modeB : Mode) (accA accB : Bool)
+    (preA midA postA preB restB : List Op) (key : String)
+    (hpreA : ∀ op ∈ preA, op.isPrelude = true)
+    (hmiss : cache.fetch (pageKey (preA.foldl Run.step ({ resp := Resp.new D cfgA modeA accA, cache } : Run D)).resp.needGzip key) = none)
+    (hmid : ∀ op ∈ midA, op.keepsEncoding = true ∧ op.finalizes = false)
+    (hpost : ∀ op ∈ postA, op.afterFinalOk modeA = true ∧ op.isStore = false)
+    (hpreB : ∀ op ∈ preB, op.isPrelude = true) :
+    ∃ Z, Done (runScript D cfgA cache modeA accA (preA ++ .fetchPage key :: (midA ++ .storePage key :: postA))).resp
+           (runScript D cfgA cache modeA accA (preA ++ .fetchPage key :: (midA ++ .storePage key :: postA))).resp.written Z ∧
+      ((preB.foldl Run.step ({ resp := Resp.new D cfgB modeB accB, cache := (runScript D cfgA cache modeA accA (preA ++ .fetchPage key :: (midA ++ .storePage key :: postA))).cache } : Run D)).resp.needGzip =
+          (runScript D cfgA cache modeA accA (preA ++ .fetchPage key :: (midA ++ .storePage key :: postA))).resp.gz.isSome →
+        Done (runScript D cfgB (runScript D cfgA cache modeA accA (preA ++ .fetchPage key :: (midA ++ .storePage key :: postA))).cache
+               modeB accB (preB ++ .fetchPage key :: restB)).resp Z Z) := by
+  obtain ⟨Z, d, hc, _⟩ := Cppcms.C03.cache_miss_stores_sent_bytes (D := D) cfgA cache modeA accA preA midA postA key hpreA hmiss hmid hpost
+  refine ⟨Z, d, fun hsel => ?_⟩
+  rw [← hsel] at hc
+  exact (Cppcms.C03.cached_hit_serves_stored_bytes_once (D := D) cfgB _ modeB accB preB restB key Z hpreB hc).1
+
+/-! ### non-vacuity of the hypotheses of section 6 -/
+
+/-- an HTTP/1.1 keep-alive case: status, cookie, gzip (stand-in deflater), two writes and a flush, a short write and a would-block -/
+def exCase : Case :=
+  { proto := .http true true, mode := .normal, gz := true, zstub := true,
+    script := [.status 404, .cookie [97] [98], .write 5 1, .flush, .write 3 2], sched := [.accept 3, .wouldBlock] }
+
+def exHeaders : Headers :=
+  { map := [([67, 111, 110, 116, 101, 110, 116, 45, 69, 110, 99, 111, 100, 105, 110, 103], [103, 122, 105, 112]),
+          ([67, 111, 110, 116, 101, 110, 116, 45, 84, 121, 112, 101], [116, 101, 120, 116, 47, 104, 116, 109, 108]),
+          ([83, 116, 97, 116, 117, 115], [52, 48, 52, 32, 78, 111, 116, 32, 70, 111, 117, 110, 100])],
+    added := [[83, 101, 116, 45, 67, 111, 111, 107, 105, 101, 58, 97, 61, 98, 59, 32, 86, 101, 114, 115, 105, 111, 110, 61, 49]] }
+
+example : wellFormed exCase.mode exCase.script = true := by decide
+
+/-- the header set `out()` hands over in `exCase` -/
+theorem exHeaders_eq : (runCaseWith stubDeflater {} [] exCase).run.resp.wireHeaders = exHeaders := by decide +kernel
+
+/-- … satisfies the header hypothesis of `response_wire_eq_http` -/
+example : HttpHeadersOk exHeaders where
+  status := by decide
+  lines := by
+    intro l hl
+    have : exHeaders.lines (some (b Gen.statusName)) = [[67,111,110,116,101,110,116,45,69,110,99,111,100,105,110,103,58,32,103,122,105,112],
+      [67,111,110,116,101,110,116,45,84,121,112,101,58,32,116,101,120,116,47,104,116,109,108],
+      [83,101,116,45,67,111,111,107,105,101,58,97,61,98,59,32,86,101,114,115,105,111,110,61,49]] := by decide
+    rw [this] at hl
+    simp only [List.mem_cons, List.not_mem_nil, or_false] at hl
+    rcases hl with h | h | h <;> subst h <;> exact ⟨by decide, by decide⟩
+  noTE := by decide
+  cl := Or.inl ⟨by decide, by decide⟩
+
+/-- a response with an announced Content-Length (the other branch of `HttpHeadersOk.cl`) -/
+example : HttpHeadersOk ((({} : Headers).set sContentType sTextHtml).set sContentLengthName [56]) where
+  status := by decide
+  lines := by
+    intro l hl
+    have : ((({} : Headers).set sContentType sTextHtml).set sContentLengthName [56]).lines (some (b Gen.statusName)) =
+      [[67,111,110,116,101,110,116,45,76,101,110,103,116,104,58,32,56], [67,111,110,116,101,110,116,45,84,121,112,101,58,32,116,101,120,116,47,104,116,109,108]] := by decide
+    rw [this] at hl
+    simp only [List.mem_cons, List.not_mem_nil, or_false] at hl
+    rcases hl with h | h <;> subst h <;> exact ⟨by decide, by decide⟩
+  noTE := by decide
+  cl := Or.inr ⟨by decide, by decide, by decide⟩
+
+/-- the hit hypothesis of `cached_hit_serves_stored_bytes_once`: a compressed page in the cache, a client that accepts gzip -/
+example : PageCache.fetch [("_Z:k", [1,2,3])] (pageKey (([] : List Op).foldl Run.step
+    ({ resp := Resp.new stubDeflater {} .normal true, cache := [("_Z:k", [1,2,3])] } : Run stubDeflater)).resp.needGzip "k") = some [1,2,3] := by
+  decide
+
+/-- the miss hypothesis of `cache_miss_stores_sent_bytes`, and a script of the shape it covers -/
+example : PageCache.fetch [] (pageKey (([.status 404] : List Op).foldl Run.step
+    ({ resp := Resp.new stubDeflater {} .normal true, cache := [] } : Run stubDeflater)).resp.needGzip "k") = none ∧
+    (∀ op ∈ ([.write 5 1, .flush, .cookie [97] [98], .setbuf 0, .putc 3 2] : List Op), op.keepsEncoding = true ∧ op.finalizes = false) ∧
+    (∀ op ∈ ([.flush, .flush, .finalize] : List Op), op.afterFinalOk .async = true ∧ op.isStore = false) := by
+  decide
+
+/-- raw modes: a complete header block satisfies the completeness hypothesis -/
+example : (rawNext {} [65, 58, 32, 98, 13, 10, 13, 10, 120, 121]).done = true := by decide
 
 end Cppcms.C03.Props
